@@ -20,6 +20,7 @@ ASSUMPTIONS = V.ASSUMPTIONS
 
 
 def run(ctx, model_ok):
+    V.record_ast(ctx)
     V.unit(ctx, "C03", model_ok)
     V.e2e(ctx, "C03")
     if ctx.tier == "thorough":
